@@ -2,7 +2,7 @@
    Only statements closed by `exact <lemma>` and their Print Assumptions.
    report lists are compared for equality as lists (pre-order of the file, one entry per call). *)
 From TL Require Import Lib.Base Lib.GenTypes Model.RustSafetyTypes Model.RustSafetySpec Gen.RustSafetyGen Model.RustSafety
-     Model.RustSafetyRun Actual.RustSafetyActual Proofs.RustSafetyWalk Proofs.RustSafetyCtx Proofs.RustSafetyEmit Proofs.RustSafetyMain Proofs.RustSafetyPlain Proofs.RustSafetyAttr Proofs.RustSafetyAttrCode.
+     Model.RustSafetyRun Actual.RustSafetyActual Proofs.RustSafetyWalk Proofs.RustSafetyCtx Proofs.RustSafetyEmit Proofs.RustSafetyMain Proofs.RustSafetyPlain Proofs.RustSafetyAttr Proofs.RustSafetyAttrCode Proofs.RustSafetyHide.
 
 (* 1. unwrap-abuse: for every quirk vector whose relevant flags are off, every configuration and every
       file, the model reports exactly every .unwrap() — and every .expect() when allow_expect is off —
@@ -157,6 +157,22 @@ Theorem C17_test_fn_never_missed : forall q pre a nm,
   q_test_attr_substring q = true -> fn_is_test pre = true -> is_test_context q (own_frame (KFn pre a nm)) = true.
 Proof. exact test_fn_never_missed. Qed.
 Print Assumptions C17_test_fn_never_missed.
+
+(* 9b. confinement of the finding q_test_attr_substring at the level of the reported lists: for EVERY quirk vector, every
+      configuration and every file, switching the flag on (sub_on q: the code's `"test" in text`) only removes reports - the list
+      is a subsequence of the one reported with the flag off (sub_off q) - for each of the three linters; in particular, with every
+      other flag off, what the substring test lets through is a subsequence of what the specification demands *)
+Theorem C17_test_attr_flag_only_hides : forall q ls c file,
+  subseq (unwrap_report (sub_on q) ls c file) (unwrap_report (sub_off q) ls c file) /\
+  subseq (clone_report (sub_on q) ls c file) (clone_report (sub_off q) ls c file) /\
+  subseq (blocking_report (sub_on q) ls c file) (blocking_report (sub_off q) ls c file).
+Proof. exact test_attr_flag_only_hides. Qed.
+Print Assumptions C17_test_attr_flag_only_hides.
+
+Theorem C17_substring_test_reports_within_spec : forall ls c file,
+  subseq (report (sub_on ideal) ls c file) (spec_report ls c file).
+Proof. exact substring_test_reports_within_spec. Qed.
+Print Assumptions C17_substring_test_reports_within_spec.
 
 (* 10. the tree-sitter node-type names the source's helpers look at are the ones the model's parser-oracle side was written for *)
 Theorem C17_grammar_names :
